@@ -104,8 +104,8 @@ Qed.
 Lemma cue_command : forall w, is_cue_start w = true -> is_command w = true.
 Proof.
   intros w E. unfold is_cue_start in E.
-  destruct control_codes as (_ & _ & _ & _ & _ & _ & _ & _ & _ & _ & F & L). rewrite L in E.
-  apply memz_In in E. rewrite Forall_forall in F. apply F. cbn [In] in *. intuition.
+  destruct control_codes as (_ & _ & _ & _ & _ & _ & _ & _ & _ & _ & F & L).
+  apply memz_In in E. apply (proj1 (L w)) in E. rewrite Forall_forall in F. apply F. cbn [In] in *. intuition.
 Qed.
 
 (* a word of one of the three code kinds sent inside a row *)
@@ -366,8 +366,8 @@ Lemma tw_char_g : forall l nodes txt fr w a b n,
 Proof.
   intros l nodes txt fr w a b n Ha Hb Hh. unfold GS.
   destruct (char_word_class w a b Ha Hb) as (Hc & Hp & Hs & He & Ht & Hq & Hbs).
-  unfold translate_word. proj_red. unfold handle_double. proj_red. rewrite Hc, Hp, Hs, He, Ht, Hq, Hbs.
-  proj_red. rewrite !andb_false_r. proj_red. rewrite Ha, Hb. unfold add_to_buf. proj_red.
+  unfold translate_word. proj_red. unfold handle_double. proj_red. rewrite Hc, Hp, Hs, He, Ht, Hq.
+  proj_red. rewrite ?andb_false_r. proj_red. rewrite Ha, Hb. unfold add_to_buf. proj_red.
   rewrite (add_chars_g nodes txt (a ++ b) Hh). proj_red. reflexivity.
 Qed.
 
@@ -405,10 +405,10 @@ Qed.
 
 Lemma dt_code : forall w k l nodes fr, kind_ok w k -> d = true -> doubled_type (GS l nodes fr) w = true.
 Proof.
-  intros w k l nodes fr Hk Hd. unfold doubled_type, GS. proj_red. rewrite Hd.
+  intros w k l nodes fr Hk _. unfold doubled_type.
   destruct k as [ch|ch|]; cbn [kind_ok] in Hk.
   - rewrite Hk. rewrite orb_true_r. reflexivity.
-  - rewrite Hk. cbn [andb orb]. apply orb_true_r.
+  - rewrite Hk. apply orb_true_r.
   - subst w. vm_compute. reflexivity.
 Qed.
 
@@ -654,7 +654,7 @@ Lemma interp_pac : forall dflt w n pos it, (w =? w_bs) = false -> memz w scc_bac
   = (mkTk [pos] None false pos, mkCr (if it then [mkI IItalOn [] pos] else []) (if it then SOn else SNone), None).
 Proof.
   intros dflt w n pos it Hbs Hbg Hmid Hst Hit Ht Hp. unfold interpret_command. cbv zeta.
-  rewrite (up_pac _ _ _ _ Ht Hp), tracker_first, Hbs, Hbg, Hst, Hit, Hmid. destruct it; reflexivity.
+  rewrite (up_pac_fresh _ _ _ _ Ht Hp), tracker_first, Hbs, Hbg, Hst, Hit, Hmid. destruct it; reflexivity.
 Qed.
 
 Definition pre_of (r : row) : list inode := if rw_ital r then [mkI IItalOn [] (rw_row r, rw_indent r)] else [].
@@ -879,10 +879,19 @@ Proof.
     + intros c Hc E. rewrite Forall_forall in Hg. destruct (gcharb_parts c (Hg c Hc)) as [G _]. lia.
 Qed.
 
-Lemma store_ital : forall c0 txt p0 p t1 t2,
+Lemma format_ital_one : forall c0 txt p0 p,
+  format_italics [mkI IItalOn [] p0; mkI IText (c0 :: txt) p]
+  = [mkI IItalOn [] p0; mkI IText (rstrip (c0 :: txt)) p; mkI IItalOff [] p0].
+Proof. reflexivity. Qed.
+
+(* the text in front of the closing italics-off node (added by pass 5) is right-stripped by pass 7 *)
+Lemma store_ital : forall c0 txt p0 p t1 t2, rstrip (c0 :: txt) = c0 :: txt ->
   create_and_store stash0 (mkCr [mkI IItalOn [] p0; mkI IText (c0 :: txt) p] SOn) t1 t2
   = mkStash [mkPre t1 t2 [CStyle true p0; CText (c0 :: txt) p; CStyle false p0] (Some p)] 1.
-Proof. reflexivity. Qed.
+Proof.
+  intros c0 txt p0 p t1 t2 H. unfold create_and_store. cbn [cr_is_empty cr_nodes existsb i_text nonempty orb negb].
+  rewrite format_ital_one, H. reflexivity.
+Qed.
 
 Lemma read_gen : forall d r off tc tc2 t1 t2 nodes, rich_row_any r = true ->
   get_time tc (Z.of_nat (length (emit_load d [r])) - (if d then 2 else 1)) off = Ok t1 ->
@@ -934,10 +943,10 @@ Theorem popon_stage2_ital_read : forall d r off tc tc2 t1 t2, rich_row_ital r = 
              (Some (row_pos r))].
 Proof.
   intros d r off tc tc2 t1 t2 H Hg1 Hg2 Hz Hfl. destruct (rich_row_ital_gen r H) as [Ha Hi].
-  destruct (pre_sty_ital r Hi) as [Ep Es].
+  destruct (pre_sty_ital r Hi) as [Ep Es]. destruct (rich_text_facts r Ha) as [Hrs _].
   destruct (rich_facts r Ha) as (_ & _ & _ & _ & _ & _ & _ & _ & _ & Hne & _).
   apply (read_gen d r off tc tc2 t1 t2 _ Ha Hg1 Hg2 Hz Hfl).
-  - rewrite Ep, Es. cbn [app]. destruct (rich_text r) as [|c0 txt]; [congruence|]. apply store_ital.
+  - rewrite Ep, Es. cbn [app]. destruct (rich_text r) as [|c0 txt]; [congruence|]. exact (store_ital c0 txt _ _ t1 t2 Hrs).
   - cbn [map node_text concat app]. apply app_nil_r.
 Qed.
 
